@@ -63,9 +63,9 @@ type obsEvent struct {
 }
 
 type observer struct {
-	name   string
-	events []obsEvent
-	open   int // invocations in progress
+	name    string
+	events  []obsEvent
+	open    int // invocations in progress
 	maxOpen int
 }
 
@@ -357,11 +357,11 @@ func removalKinds(k *c16Case) string {
 
 func init() {
 	register(&Prop{
-		ID:    "C16",
-		Level: "exploration",
-		Gen:   genC16,
-		Run:   runC16,
-		Config: func(cs Case) simrt.Config { return simrt.Config{NoJumps: true, MaxSteps: 100000} },
+		ID:                "C16",
+		Level:             "exploration",
+		Gen:               genC16,
+		Run:               runC16,
+		Config:            func(cs Case) simrt.Config { return simrt.Config{NoJumps: true, MaxSteps: 100000} },
 		BudgetIsViolation: true,
 		QuickRuns:         15000,
 		ThoroughRuns:      300000,
@@ -371,8 +371,8 @@ func init() {
 			"goroutine runs relative to the operations that follow. At quiescence: exactly one stored event per id that ever appeared in a " +
 			"listing, exactly one deleted event iff it is no longer listed (whatever removed it), none for unknown ids, no overlapping " +
 			"invocations per observer, stored before deleted, stored events of a mailbox in arrival order. non-trivial = >2 events observed",
-		Real: []string{"pkg/extension (AsyncEventBroker)", "pkg/message StoreManager.Deliver", "pkg/storage/mem", "pkg/storage/file", "RetentionScanner.DoScan"},
-		Stub: []string{"scheduler (simrt)", "disk (simfs)", "clock (synctest)"},
+		Real:        []string{"pkg/extension (AsyncEventBroker)", "pkg/message StoreManager.Deliver", "pkg/storage/mem", "pkg/storage/file", "RetentionScanner.DoScan"},
+		Stub:        []string{"scheduler (simrt)", "disk (simfs)", "clock (synctest)"},
 		Assumptions: []string{"one client issues the operations; the asynchronous dimension is the event dispatch"},
 	})
 }
